@@ -65,4 +65,15 @@ impl KeyCache {
         cache.put(key, ());
         Ok(key)
     }
+
+    /// Verification hook, compiled only with `--cfg iroh_verif`: the cached keys from most to
+    /// least recently used, or `None` when the cache is disabled.
+    #[cfg(iroh_verif)]
+    pub fn verif_entries(&self) -> Option<Vec<PublicKey>> {
+        let Inner::Shared(cache) = &self.0 else {
+            return None;
+        };
+        let cache = cache.lock().expect("not poisoned");
+        Some(cache.iter().map(|(key, _)| *key).collect())
+    }
 }
